@@ -155,20 +155,25 @@ def scale_case(case):
     return {"ok": True, "nt": len(set(w)) > 1, "ops": k, "out": "len%d" % len(w)}
 
 
+def key_tuple(k):
+    """'01' -> (0, 1); '0,10' -> (0, 10) (outcomes of non-binary subsystems are written comma-separated)"""
+    return tuple(int(x) for x in k.split(",")) if "," in k else tuple(int(c) for c in k)
+
+
 def represent_case(case):
     """{'weights': {key: w}, 'N': n, 'bound': d|None, 'keys': 'str'|'tuple'}: every answer script within the bound"""
     from orquestra.quantum.distributions import MeasurementOutcomeDistribution
     from orquestra.quantum.measurements import Measurements
     weights = case["weights"]
     N = case["N"]
-    support = {tuple(int(c) for c in k) for k, v in weights.items() if v > 0}
+    support = {key_tuple(k) for k, v in weights.items() if v > 0}
     outcomes = Counter()
     n_exec = 0
     max_calls = 0
     first_bad = None
 
     def execute(script):
-        inp = {(tuple(int(c) for c in k) if case.get("keys") == "tuple" else k): v for k, v in weights.items()}
+        inp = {(key_tuple(k) if case.get("keys") == "tuple" else k): v for k, v in weights.items()}
         dist = MeasurementOutcomeDistribution(inp)
         before = dict(dist.distribution_dict)
         with seams.owned_rng(script):
@@ -214,7 +219,7 @@ def seam_validation_case(case):
     from orquestra.quantum.distributions import MeasurementOutcomeDistribution
     from orquestra.quantum.measurements import Measurements
     w, N = case["weights"], case["N"]
-    support = {tuple(int(c) for c in k) for k, v in w.items() if v > 0}
+    support = {key_tuple(k) for k, v in w.items() if v > 0}
     for seed in range(5):
         np.random.seed(seed)
         m = Measurements.get_measurements_representing_distribution(MeasurementOutcomeDistribution(dict(w)), N)
@@ -224,7 +229,7 @@ def seam_validation_case(case):
     return {"ok": True, "nt": True, "ops": 5, "out": "real"}
 
 
-FUNCS = {"expand_combine": expand_case, "batches": batch_case, "pipeline": pipeline_case, "scale": scale_case, "represent": represent_case, "represent_wide": represent_case,
+FUNCS = {"expand_combine": expand_case, "batches": batch_case, "pipeline": pipeline_case, "scale": scale_case, "represent": represent_case, "represent_wide": represent_case, "represent_multidigit": represent_case,
          "represent_real_rng": seam_validation_case}
 
 
@@ -267,6 +272,11 @@ def run(run):
     cases = [{"weights": d, "N": n, "bound": bound, "keys": "str"} for d in D for n in Ns]
     cases += [{"weights": d, "N": n, "bound": bound, "keys": "tuple"} for d in D[::7] for n in Ns]
     secs.append(Section("represent", cases, represent_case, horizon=600, desc="get_measurements_representing_distribution under every scripted RNG answer (bound=%s)" % bound))
+    # outcomes of non-binary subsystems (entries >= 10 need more than one character): every weight assignment 0..3 on three such outcomes
+    QK = ["0,10", "12,1", "3,0"]
+    qcases = [{"weights": dict(zip(QK, w)), "N": n, "bound": bound, "keys": kk} for w in itertools.product(range(0, 4), repeat=3) if any(w) for n in (1, 2, 3, 5, 8)
+              for kk in ("str", "tuple")]
+    secs.append(Section("represent_multidigit", qcases, represent_case, horizon=600, desc="distributions over outcomes with multi-digit entries (comma-separated / tuple keys), every scripted RNG answer (bound=%s)" % bound))
     fam = two_level_family(thorough)
     wb = 3 if thorough else 1
     cases = [{"weights": d, "N": n, "bound": wb, "keys": "str"} for d in fam for n in (range(1, 17) if thorough else (2, 3, 4, 5, 7, 9))]
